@@ -45,6 +45,17 @@ Fixpoint mrun (m : mode) (evs : list mevent) : mode * list maddr :=
               (m2, match p with Some a => a :: ps | None => ps end)
   end.
 
+(* several lookups that end in the same loop iteration are gone through one after the other
+   (Core::cleanup_done_queries); the address to probe afterwards is the one that changed last *)
+Fixpoint last_change (m : mode) (votes : list (option maddr)) : mode * option maddr :=
+  match votes with
+  | [] => (m, None)
+  | v :: r =>
+      let '(m1, p1) := mstep m (MLookupDone v) in
+      let '(m2, p2) := last_change m1 r in
+      (m2, match p2 with Some a => Some a | None => p1 end)
+  end.
+
 (* ---- per-message rules ---- *)
 (* does the node answer a request at all? (the request filter can only veto further) *)
 Definition answers_requests (m : mode) : bool := m_server m.
